@@ -707,14 +707,18 @@ pub fn run_step(env: &Env, ctx: &mut ThreadCtx, idx: usize, step: &Step) -> Step
 		Step::Scoped { target, read, try_, owned_key, body } => {
 			executed = step_scoped(env, ctx, *target, *read, *try_, *owned_key, body);
 		}
-		Step::PhantomHold { leaf, shared } => {
+		Step::PhantomHold { leaf, shared, transient } => {
 			if (*leaf as usize) < env.sem.nlocks {
 				let who = {
 					let mut sh = env.sh();
-					let w = PHANTOM + (sh.next_phantom % 50);
+					let base = if *transient { PHANTOM_T } else { PHANTOM };
+					let w = base + (sh.next_phantom % 50);
 					sh.next_phantom += 1;
 					w
 				};
+				if *transient {
+					env.label("phantom_transient");
+				}
 				if env.exec.phantom_hold(*leaf, *shared, who) {
 					env.sh().phantoms.push((*leaf, *shared, who));
 				} else {
@@ -734,7 +738,10 @@ pub fn run_step(env: &Env, ctx: &mut ThreadCtx, idx: usize, step: &Step) -> Step
 			};
 			match p {
 				Some((l, _, who)) => {
-					env.exec.phantom_release(l, who);
+					if !env.exec.phantom_release(l, who) {
+						// a transient phantom that already let go
+						executed = false;
+					}
 				}
 				None => executed = false,
 			}
